@@ -155,6 +155,38 @@ def strategy(tier, stratum):
     return _case(stratum)
 
 
+ENUM_SPACE = "every order of 3 tips x every order of 3 wells (36), and every order of 4 tips x every order of 4 wells (576; quick: a stride sample of 96), with pairwise different per-tip volumes, on a plate and on a trough"
+
+
+def enumerate_cases(tier):
+    import itertools
+
+    for k in (3, 4):
+        combos = list(itertools.product(itertools.permutations(range(k)), itertools.permutations(range(k))))
+        if k == 4 and tier == "quick":
+            combos = combos[::6]
+        for n, (tp, wp) in enumerate(combos):
+            trough = n % 2 == 1
+            yield {
+                "kind": "evo_aspirate" if n % 4 < 2 else "evo_dispense",
+                "trough": trough,
+                "rows": 8,
+                "cols": 2,
+                "wells": [[1 + 2 * w, 1] for w in wp],
+                "tips": [2 + 2 * t if (n + t) % 2 else f"T{2 + 2 * t}" for t in tp],
+                "vols": [10.0 * (i + 1) + 0.25 for i in range(k)],
+                "grid": 20,
+                "site": 3,
+                "arm": 0,
+                "lc": "Water",
+                "M": 950,
+                "stream": "core" if (list(tp) == sorted(tp) and list(wp) == sorted(wp)) else "order",
+                "twist": "enumerated-orders",
+                "label": None,
+                "vols_container": "list",
+            }
+
+
 def _sym(t):
     import robotools
 
